@@ -23,3 +23,23 @@ PROPS['C15'] = dict(
     obs_max=['exhaustive_len'],
     min_obs={'quick': {'icmp_frames_checked': 2000}, 'thorough': {'icmp_frames_checked': 2000}},
 )
+
+PROPS['C01'] = dict(
+    runs=[run('plain')], shards=16, watchdog=True, level='exploration',
+    rule=('inputs: (S1) structurally valid frames of every EtherType/IP-protocol/UDP-port class x 7 mutations (none, truncate, length/count '
+          'field set to {0,1,v-1,v+1,max,...}, bit flips, splice, zero-fill, extend); (S2) truncation of structural frames at every offset; '
+          '(S3) random / all-ff / zero strings of every length 0..1600 steered to each EtherType and IP protocol; (S4) every exported view type '
+          'x {random strings of every length 0..min+64, generated valid messages, truncated and byte-corrupted ones}, all zero-argument methods '
+          'enumerated by reflection. Each Parse input is parsed twice (cap==len, and in a larger buffer whose spare capacity holds 0xff / PRNG / '
+          'the plausible continuation of the packet) and the two results compared. Non-trivial: Parse returned nil and decoded a layer above '
+          'Ethernet, or returned an error past the Ethernet check, or a valid view had its getters called; distinct = '
+          '(PayloadID, error class, length bucket, mutation) / (view type, mutation, length bucket)'),
+    assumptions=['Go bounds checks turn every out-of-slice access into a recoverable panic (no cgo/unsafe on these paths)',
+                 'hang verdict = worker burned >=5 CPU-seconds on one case (cases cost microseconds)',
+                 'Ether.Payload() on a header-only frame deliberately returns the spare capacity (encoder idiom) and is exempt from the containment rule'],
+    min_obs={'quick': {'views_valid': 5000, 'view_results_inside': 20000}, 'thorough': {'views_valid': 5000}},
+    obs_max=['view_methods_' + n for n in ['Ether','IP4','IP6','UDP','TCP','ARP','ICMP','ICMPEcho','ICMP4Redirect','ICMP6RouterSolicitation',
+             'ICMP6RouterAdvertisement','ICMP6NeighborAdvertisement','ICMP6NeighborSolicitation','ICMP6Redirect','DHCP4','DNS','LLC','SNAP','RRCP','LLDP',
+             'IEEE1905','EthernetPause','HopByHopExtensionHeader']],
+    timeout={'quick': 900, 'thorough': 6*3600},
+)
